@@ -244,7 +244,7 @@ func TestVerifC07Gen(t *testing.T) {
 			os.Unsetenv(k) // t.Setenv restores the original value at the end of the test
 		}
 	}
-	n := r.N(60, 500)
+	n := r.N(60, 400)
 	var st c07Stats
 	for ci := 0; ci < n; ci++ {
 		rng := r.Rand(ci)
